@@ -31,7 +31,10 @@ def sample_entries(rng, ell, n):
     pts = list(pts)
     rng.shuffle(pts)
     pts = pts[:max(4, n // 2)]
-    while len(pts) < n:
+    # first off-diagonals: the entries that carry a near-pole rotor's deviation from the pole (∝ sqrt(l(l+1)) β / 2)
+    pts += [(0, 1), (1, 0), (-1, 0), (ell, ell - 1), (-ell + 1, -ell), (rng.randint(-ell, ell - 1),) * 2]
+    pts[-1] = (pts[-1][0], pts[-1][0] + 1)
+    while len(pts) < n + 6:
         pts.append((rng.randint(-ell, ell), rng.randint(-ell, ell)))
     return pts
 
